@@ -135,10 +135,23 @@ func (e *Encoder) callCommon(instr ssa.Instruction, cm *ssa.CallCommon, res ssa.
 				}
 			}
 		}
-		if par, ok := cm.Value.(*ssa.Parameter); ok && e.fc != nil && len(e.fc.Sites) > 0 {
-			// a call of a function-typed parameter (a callback): site `call <param>#k`
-			dsn := e.siteName("call", par.Name())
-			e.siteAsserts("call "+par.Name(), dsn, st, pc, args)
+		if e.fc != nil && len(e.fc.Sites) > 0 {
+			// a call through a function-typed parameter or local variable: site `call <variable>#k`
+			dname := ""
+			switch v := cm.Value.(type) {
+			case *ssa.Parameter:
+				dname = v.Name()
+			case *ssa.Phi:
+				dname = v.Comment
+			case *ssa.UnOp:
+				if al, ok := v.X.(*ssa.Alloc); ok && v.Op == token.MUL {
+					dname = al.Comment
+				}
+			}
+			if dname != "" {
+				dsn := e.siteName("call", dname)
+				e.siteAsserts("call "+dname, dsn, st, pc, args)
+			}
 		}
 		e.havocAll(st, "dynamic call "+cm.Value.Name())
 		v := e.freshVal("dcall", resT)
